@@ -97,6 +97,11 @@ class State:
 
 Results = list  # list[tuple[Any, State]]
 
+EXT_BUILTINS = {
+    "functools.partial": "partial", "typing.cast": "cast", "typist.assert_never": "assert_never",
+    "dataclasses.replace": "replace", "dataclasses.field": "field",
+}
+
 
 class Interp:
     def __init__(
@@ -192,6 +197,8 @@ class Interp:
                 m, n = r.rsplit(".", 1)
                 if m in self.model.modules and n in self.model.modules[m].assigns:
                     return self.module_const(self.model.modules[m], n)
+            if tgt in EXT_BUILTINS:
+                return BoundV(None, EXT_BUILTINS[tgt])
             return Opaque(f"ext:{tgt}")
         if name in self.B.BUILTIN_NAMES:
             return BoundV(None, name)
@@ -358,7 +365,7 @@ class Interp:
         return out
 
     def e_Lambda(self, e, st):
-        return [(LambdaV(e, id(st)), st)]
+        return [(LambdaV(e, dict(st.locals), self.ctx_stack[-1]), st)]
 
     def e_Call(self, e, st):
         def f(fv, s):
@@ -781,7 +788,7 @@ class Interp:
         return out
 
     def s_FunctionDef(self, stmt, st):
-        st.locals[stmt.name] = LambdaV(stmt, id(st))
+        st.locals[stmt.name] = LambdaV(stmt, st.locals, self.ctx_stack[-1])
         return [(st, "fall", None)]
 
     def s_Global(self, stmt, st):
@@ -826,21 +833,27 @@ class Interp:
 
     def call_lambda(self, fv: LambdaV, args: list, kwargs: dict, st: State) -> Results:
         node = fv.node
-        frame = dict(st.locals)  # closure over the defining frame (approximation: current frame)
+        frame = dict(fv.closure)
         params = [a.arg for a in node.args.args]
         for p, a in zip(params, args):
             frame[p] = a
         frame.update(kwargs)
         st.frames.append(frame)
         out: Results = []
-        if isinstance(node, ast.Lambda):
-            for v, s in self.eval(node.body, st):
-                s.frames.pop()
-                out.append((v, s))
-        else:
-            for s, o, v in self.exec_block(node.body, st):
-                s.frames.pop()
-                out.append((v if o in ("return", "raise") else None, s))
+        if fv.module is not None:
+            self.ctx_stack.append(fv.module)
+        try:
+            if isinstance(node, ast.Lambda):
+                for v, s in self.eval(node.body, st):
+                    s.frames.pop()
+                    out.append((v, s))
+            else:
+                for s, o, v in self.exec_block(node.body, st):
+                    s.frames.pop()
+                    out.append((v if o in ("return", "raise") else None, s))
+        finally:
+            if fv.module is not None:
+                self.ctx_stack.pop()
         return out
 
     def bind_params(self, fi: FuncInfo, args: list, kwargs: dict, st: State) -> Optional[dict]:
